@@ -229,7 +229,8 @@ let history_o (ops : string list) : string * string =
   let ids_of l = cat "," (List.concat (List.map (function Ok k -> [string_of_z (oid k)] | _ -> []) l)) in
   let (bs, ko), nk = state_obs t in
   let bstr = List.sort compare (List.map (fun (code, prs) ->
-      string_of_z code ^ ":" ^ cat "," (List.map (fun (k, v) -> string_of_z (oid k) ^ "/" ^ show_key (erase k) ^ "=" ^ show_value v) prs)) bs) in
+      string_of_z code ^ ":" ^ cat "," (List.sort compare (List.map (fun (k, v) ->
+        String.map (fun c -> if c = 'C' then 'I' else c) (show_key (erase k)) ^ "=" ^ show_value v) prs))) bs) in
   let st = cat "|" bstr ^ "/ko:" ^ cat "," (List.map (fun k -> string_of_z (oid k)) ko) ^ "/n:" ^ string_of_z nk in
   let m =
     "len=" ^ show_oz (len t)
